@@ -97,13 +97,38 @@ def _has_catalyst(case):
     return any({s for s, c in l if c > 0} & {s for s, c in r if c > 0} for l, r in case["rxns"])
 
 
+def _species_insertion_order(case, n):
+    """ranks of the species in the order their nodes are inserted into a caller-supplied graph ([] = label order)"""
+    if case.get("mode", "hg") == "hg" or case.get("shuffle") is None:
+        return []
+    import random
+    order = list(range(n))
+    random.Random(case["shuffle"]).shuffle(order)
+    return order
+
+
 def _crn_input(case, H):
     mode = case.get("mode", "hg")
     if mode == "hg":
         return H
     import networkx as nx
     from synkit.CRN.Hypergraph.conversion import hypergraph_to_bipartite
-    G = hypergraph_to_bipartite(H, integer_ids=False)
+    G = hypergraph_to_bipartite(H, integer_ids=bool(case.get("int_ids", False)))
+    if case.get("shuffle") is not None:
+        # the same graph with its nodes INSERTED in another order: species in a shuffled order, reactions interleaved; the
+        # node ids of the integer export are two-digit from 10 nodes on and unrelated to the insertion order
+        sp = [u for u, d in G.nodes(data=True) if d.get("kind") == "species"]
+        rn = [u for u, d in G.nodes(data=True) if d.get("kind") == "reaction"]
+        assert [G.nodes[u]["label"] for u in sp] == sorted(G.nodes[u]["label"] for u in sp)
+        order = _species_insertion_order(case, len(sp))
+        G2 = nx.DiGraph()
+        seq_ = [sp[i] for i in order]
+        k = len(seq_) // 2
+        for u in seq_[:k] + rn + seq_[k:]:
+            G2.add_node(u, **G.nodes[u])
+        for u, v, d in G.edges(data=True):
+            G2.add_edge(u, v, **d)
+        G = G2
     if mode == "bip":
         return G
     if mode == "und":
@@ -433,8 +458,9 @@ def coq_case(case):
         if case.get("mode") == "und" and _has_catalyst(case):
             return None
         rx = clist([cpair(_cside(l, rank), _cside(r, rank)) for l, r in case["rxns"]])
-        return "run_net %s %s %s %s %s" % (cnat(n), rx, cbool(case.get("mode") == "und"), cnat(case.get("k", n)),
-                                          clist([clist([cnat(i) for i in c]) for c in case.get("cands", [])]))
+        return "run_net %s %s %s %s %s %s" % (cnat(n), rx, cbool(case.get("mode") == "und"), cnat(case.get("k", n)),
+                                             clist([clist([cnat(i) for i in c]) for c in case.get("cands", [])]),
+                                             clist([cnat(i) for i in _species_insertion_order(case, n)]))
     if t == "petri":
         known = set(case["places"])
         for tid, pre, post in case["trans"]:
@@ -1117,6 +1143,9 @@ def gen_random_nets(n, rng):
                 rx.append([[list(x) for x in l], [list(x) for x in r]])      # repeated reaction
         iso = [s for s in sp if rng.random() < 0.15]
         c = dict(t="net", kind="net-rand", species=[], iso=iso, rxns=rx, mode=rng.choice(["hg", "hg", "bip", "und"]))
+        if c["mode"] != "hg" and rng.random() < 0.6:
+            c["shuffle"] = rng.randrange(10 ** 6)
+            c["int_ids"] = rng.random() < 0.5
         nsp = len(_all_species(c))
         c["k"] = rng.randint(0, nsp + 1)
         nc = rng.randint(0, 7)
@@ -1127,6 +1156,34 @@ def gen_random_nets(n, rng):
     # error cases: no reactions / nothing at all
     cases.append(dict(t="net", kind="net-error", species=[], iso=["A"], rxns=[], mode="hg", k=1))
     cases.append(dict(t="net", kind="net-error", species=[], iso=[], rxns=[], mode="hg", k=0))
+    return cases
+
+
+def gen_big_nets(n, rng):
+    """10-12 species (two-digit node ids of the integer export, two-digit indices), sparse; size bound 2-3 keeps the subset
+    enumeration small (the predicates are still evaluated on all subsets of up to 11 species: 2047)"""
+    cases = []
+    names = ["X%d" % i for i in range(1, 13)]                 # X1, X10, X11, X12, X2, ...: label order != numeric order
+    for i in range(n):
+        ns = rng.choice([10, 10, 11])
+        sp = rng.sample(names, ns)
+        rx = []
+        used = set()
+        while len(rx) < rng.randint(8, 12) or len(used) < ns:
+            l, r = _rand_side(rng, sp, 2), _rand_side(rng, sp, 2)
+            if not l and not r:
+                continue
+            free = [x for x in sp if x not in used]
+            if free and rng.random() < 0.7:
+                (l if rng.random() < 0.5 else r).append([free[0], 1]) if free[0] not in {y for y, _ in l + r} else None
+            used |= {y for y, _ in l + r}
+            rx.append([l, r])
+        mode = ["hg", "bip", "und"][i % 3]
+        c = dict(t="net", kind="net-big", species=[], iso=[], rxns=rx, mode=mode, k=rng.choice([2, 3]))
+        if mode != "hg":
+            c["shuffle"] = rng.randrange(10 ** 6)
+            c["int_ids"] = True
+        cases.append(c)
     return cases
 
 
@@ -1459,6 +1516,7 @@ def _rand_ops(rng, base, n):
     return ops
 
 
+HIST_RETRY = [["B", "Rt", "R", "C"], ["B", "Rd", "R", "C", "Rt", "C"], ["B", "R", "Rt", "C", "R"], ["S", "Rd", "Rt", "R"], ["B", "Rt", "Rd", "C", "R", "C"]]
 HIST_PATTERNS = [
     ["B", "S", "R", "C"], ["S", "R"], ["B", "R", "S", "C", "R"], ["B", "S", "C", "S", "R"], ["S", "C", "R", "C"],
     ["B", "R", "C", "S", "R", "C"], ["S", "B", "R"], ["B", "S", "L2", "R", "B", "R", "C"], ["B", "R", "L2", "R", "C", "S", "R"],
@@ -1512,9 +1570,13 @@ def gen_histories(n, rng):
             continue
         for k in ("max_states", "max_depth", "via"):
             base.pop(k, None)
-        if rng.random() < 0.55:
+        pat = None
+        if base["kind"] == "hist-walk" and rng.random() < 0.5:
+            pat = rng.choice(HIST_RETRY)          # the documented retry workflow: tight bounds first, then ample ones
+        elif rng.random() < 0.55:
             pat = rng.choice(HIST_PATTERNS[-2:] + [["W", "R", "C"]] if base["kind"] == "hist-autocat" and rng.random() < 0.7
                              else HIST_PATTERNS)
+        if pat is not None:
             need = base.get("need", 2)
             ops = []
             fl = base["flow"]
@@ -1525,6 +1587,10 @@ def gen_histories(n, rng):
                     ops.append(["R", None, None])
                 elif o == "Rb":
                     ops.append(["R", rng.randint(1, 6), None])
+                elif o == "Rt":
+                    ops.append(["R", rng.choice([0, 1, 2]), None])
+                elif o == "Rd":
+                    ops.append(["R", None, rng.choice([0, 1])])
                 elif o == "L2":
                     fl = [[e, 2 * f] for e, f in fl]
                     ops.append(["L", fl])
@@ -1618,9 +1684,16 @@ def gen_cases(tier, rng):
     cases += gen_analyzer_histories(60 if tier == "quick" else 600, rng)
     cases += gen_histories(150 if tier == "quick" else 1500, rng)
     cases += gen_exhaustive(tier, rng)
-    for rx in TEXTBOOK_NETS:
+    for j, rx in enumerate(TEXTBOOK_NETS):
         for mode in ("hg", "bip", "und"):
             cases.append(dict(t="net", kind="net-textbook", species=[], iso=[], rxns=rx, mode=mode, k=2))
+            if mode != "hg":                # the same graph with its species nodes inserted in another order / integer ids
+                cases.append(dict(t="net", kind="net-textbook", species=[], iso=[], rxns=rx, mode=mode, k=2, shuffle=7 + j, int_ids=bool(j % 2)))
+    # A -> B -> C with the nodes inserted A, C, B (and every other insertion order of three species)
+    for sh in range(6):
+        cases.append(dict(t="net", kind="net-textbook", species=[], iso=[], rxns=[[[["A", 1]], [["B", 1]]], [[["B", 1]], [["C", 1]]]],
+                          mode="bip" if sh % 2 else "und", k=3, shuffle=sh, int_ids=sh >= 3))
+    cases += gen_big_nets(6 if tier == "quick" else 40, rng)
     cases += [c for c in gen_textbook() if c is not None]
     if tier == "quick":
         cases += gen_random_nets(400, rng)
@@ -1633,7 +1706,7 @@ def gen_cases(tier, rng):
     return cases
 
 
-LEVEL_TEXT = ("Machine-checked proof (Coq, 15 theorems, all closed under the global context) over an executable, structure-following model of "
+LEVEL_TEXT = ("Machine-checked proof (Coq, 16 theorems, all closed under the global context) over an executable, structure-following model of "
               "structure.py / net.py / realizability.py: (1) the siphon and trap index predicates equal the Petri-net definitions for every network "
               "and every species subset; (2) _minimal_sets returns exactly the inclusion-minimal candidates for every candidate list; (3) find_siphons / "
               "find_traps report exactly the minimal non-empty siphons / traps (for every max_size); (4) enabled <=> marking covers the reactants, "
